@@ -26,11 +26,13 @@ func InitGenesis(ctx sdk.Context, k keeper.Keeper, data types.GenesisState) {
 			panic(fmt.Errorf("unknown servcie request context: %s", entry.Feed.RequestContextID))
 		}
 
-		for _, value := range entry.Values {
+		// values are exported newest first; give each its own slot (the newest at the current batch counter)
+		// instead of writing them all under one key
+		for i, value := range entry.Values {
 			k.SetFeedValue(
 				ctx,
 				entry.Feed.FeedName,
-				reqCtx.BatchCounter,
+				reqCtx.BatchCounter-uint64(i),
 				entry.Feed.LatestHistory,
 				value,
 			)
